@@ -78,6 +78,11 @@ var lits = []string{"nil", "true", "false", "5", "-3", "1.5", `"s"`, `""`, `"12"
 func genOp(r *simrt.RNG, renameBias float64) Op {
 	keys := []string{"f1", "t1", "message", "_", "n1", "n2", "`sp k`"}
 	k := keys[r.Intn(len(keys))]
+	if r.Intn(12) == 0 {
+		// further keys (not read back by the probe's script-level reads, but covered by the invariants):
+		// many keys on one point, long names
+		k = []string{"x1", "x2", "x3", "x4", "x5", "x6", "x7", "x8", "x9", "a_rather_long_key_name_0123456789_0123456789_0123456789"}[r.Intn(10)]
+	}
 	if r.Chance(renameBias) {
 		k2 := keys[r.Intn(len(keys))]
 		return Op{Op: "rename", K: k, K2: k2}
@@ -133,6 +138,9 @@ func (Prop) Generate(seed uint64, tier string) *core.Plan {
 	r := simrt.NewRNG(seed)
 	nt := 1 + r.Intn(4)
 	maxOps := []int{3, 8, 25}[r.Intn(3)]
+	if r.Intn(25) == 0 {
+		maxOps = 90 // occasionally a long history on one point
+	}
 	renameBias := []float64{0, 0.08, 0.2}[r.Intn(3)]
 	pCancel := []float64{0, 0.2}[r.Intn(2)]
 	sparse := []int{0, 2, 30}[r.Intn(3)]
